@@ -474,6 +474,31 @@ func (g *G) try() (fsx.Op, bool) {
 		if !g.Walk {
 			return fsx.Op{}, false
 		}
+		if g.R.IntN(2) == 0 {
+			// a pattern made from a path of the tree: its last element, or the one before, becomes a wildcard
+			p := g.Path()
+			d, b := p, ""
+			if i := strings.LastIndexByte(p, '/'); i >= 0 {
+				d, b = p[:i], p[i+1:]
+			}
+			switch g.R.IntN(5) {
+			case 0:
+				p = d + "/*"
+			case 1:
+				if b != "" {
+					p = d + "/" + b[:1] + "*"
+				}
+			case 2:
+				if j := strings.LastIndexByte(d, '/'); j >= 0 && b != "" {
+					p = d[:j] + "/*/" + b
+				}
+			case 3:
+				if b != "" {
+					p = d + "/[" + b[:1] + "]" + b[1:]
+				}
+			}
+			return fsx.Op{K: "Glob", P: p}, true
+		}
 		return fsx.Op{K: "WalkDir", P: g.Path()}, true
 	}
 }
